@@ -28,6 +28,13 @@ def run_c01(run, scratch, seed, tier):
     st = suites.engine_suite(run, scratch, seed, n, oracle_fns=[("C01 balance sheet", oracles.c01_balance_sheet)])
     run.add_suite("engine_histories", st)
     run.cov["rule"] = st["rule"]
+    # the recorded rows of whole backtests, the date of a bankruptcy included
+    import gen_backtest
+    bst = backtest_suite(run, scratch, seed, sizes(tier, 120, 2500), oracle_fns=[("C01 recorded rows", oracles.c01_recorded_rows)])
+    run.add_suite("backtest_runs", bst)
+    kst = backtest_suite(run, scratch, seed, sizes(tier, 120, 2000), name="bankruptcy_paths",
+                         oracle_fns=[("C01 recorded rows", oracles.c01_recorded_rows)], gen=gen_backtest.gen_bankrupt_cases)
+    run.add_suite("bankruptcy_paths", kst)
 
 
 PROPS = {
@@ -45,7 +52,7 @@ def replay(run, scratch, path, cfg):
     pid = obj.get("property", run.pid)
     case = obj.get("case")
     bad = False
-    bt_oracles = {"C02": oracles.c02_attribution, "C03": oracles.c03_index, "C06": oracles.c06_rebalance, "C07": oracles.c07_ledger,
+    bt_oracles = {"C01": oracles.c01_recorded_rows, "C02": oracles.c02_attribution, "C03": oracles.c03_index, "C06": oracles.c06_rebalance, "C07": oracles.c07_ledger,
                   "C14": oracles.c14_selection, "C15": oracles.c15_weights, "C16": oracles.c16_bankruptcy,
                   "C17": oracles.c17_fixed_income, "C20": oracles.c20_risk}
     if isinstance(case, dict) and "ops" in case and "nrows" in case:
